@@ -49,7 +49,7 @@ for pid in ids:
             subprocess.check_call(["git", "-C", "/repo", "worktree", "add", "-q", "--detach", wt, "HEAD"])
             cmd = demo_cmd(how, "%s/%s.out/%s" % (SRC, pid, n), wt, dst)
             res["demo_cmd"] = cmd
-            rc0, out0 = sh(cmd)
+            rc0, out0 = sh(cmd, cwd=wt)
             res["unpatched_rc"] = rc0
             res["unpatched_tail"] = out0[-600:]
             sh("git checkout -q -- . && git clean -fdq", cwd=wt)
@@ -59,7 +59,7 @@ for pid in ids:
             res["builds"] = rc == 0
             rc, out = sh("go test -vet=off -count=1 ./... 2>&1 | grep -E '^--- FAIL' | grep -v TestIOZero | wc -l", cwd=wt)
             res["suite_extra_failures"] = int(out.strip().split()[-1]) if out.strip() else -1
-            rc1, out1 = sh(cmd)
+            rc1, out1 = sh(cmd, cwd=wt)
             res["patched_rc"] = rc1
             res["patched_tail"] = out1[-600:]
             passed0 = ("FAIL" not in out0) and bool(re.search(r"^(ok\s|PASS)", out0, re.M))
